@@ -202,15 +202,21 @@ where
     }
 
     /// Process a key bundle received from the network.
+    ///
+    /// Returns no event if this key bundle was already registered before.
     pub async fn process_key_bundle(
         &mut self,
         author: MemberId,
         key_bundle: &LongTermKeyBundle,
-    ) -> Result<Event<C>, IdentityError<F, C>> {
+    ) -> Result<Option<Event<C>>, IdentityError<F, C>> {
         key_bundle.verify()?;
         let member = Member::new(author, key_bundle.clone());
+        let key_registry_y = self.key_registry().await?;
         self.register_member(&member).await?;
-        Ok(Event::KeyBundle { author })
+        if key_registry_y == self.key_registry().await? {
+            return Ok(None);
+        }
+        Ok(Some(Event::KeyBundle { author }))
     }
 
     pub async fn forge(&mut self, args: SpacesArgs<C>) -> Result<F::Message, IdentityError<F, C>> {
